@@ -218,6 +218,8 @@ def check(prop, tier, replay_case=None, replay_config=None):
             new.append(v)
 
     rep_dir = os.path.join(common.OUT, "replays", prop)
+    if replay_case is None:
+        shutil.rmtree(rep_dir, ignore_errors=True)
     os.makedirs(rep_dir, exist_ok=True)
     if replay_case is None:
         for f in findings:
